@@ -205,9 +205,17 @@ def case_live(c, root):
     prof = LineProfiler()
     funcs = {}
     for k, f in enumerate(c['files']):
-        mod = load_module(info[f['fname']][0], 'c11mod_%d' % k)
+        if f.get('pseudo'):
+            # no file at all: the source is compiled under a pseudo name ('<string>', '<frozen x>', ...)
+            ns = {}
+            exec(compile(open(info[f['fname']][0], encoding='utf-8').read(), f['pseudo'], 'exec'), ns)
+            os.unlink(info[f['fname']][0])
+            get = ns.__getitem__
+        else:
+            mod = load_module(info[f['fname']][0], 'c11mod_%d' % k)
+            get = lambda nm, mod=mod: getattr(mod, nm)   # noqa
         for fn in f['funcs']:
-            fobj = getattr(mod, fn['name'])
+            fobj = get(fn['name'])
             funcs[(k, fn['name'])] = fobj
             if fn.get('profiled', True):
                 prof.add_function(fobj)
@@ -242,7 +250,8 @@ def case_synthetic(c, root):
             path = info[fname][0]
             start = info[fname][1][e['func']]
         else:
-            path = os.path.join(d, fname)      # does not exist: 'Could not find file' fallback
+            # does not exist: 'Could not find file' fallback; `raw` names ('<string>', ...) are used as they are
+            path = fname if e.get('raw') else os.path.join(d, fname)
             start = e['start']
         timings[(path, start, e['func'])] = [(start + off, h, t) for (off, h, t) in e['rows']]
     unit = float(c['unit'])
@@ -464,6 +473,24 @@ def case_history(c, root):
                     err = repr(e)
                 steps.append(dict(op='dump', prof=st[1], file=st[2], live=live, live_after=snap_json(p.get_stats()),
                                   loaded=try_load(path_of(st[2])), err=err))
+            elif op == 'sdump':
+                # a profiler whose get_stats() returns the given statistics dumps through the real dump_stats
+                tim = {(os.path.join(d, e['fname']), e['start'], e['func']): [tuple(r) for r in e['rows']] for e in st[2]}
+                unit = float(st[3])
+
+                class _Fixed(LineProfiler):
+                    def get_stats(self, tim=tim, unit=unit):
+                        return LineStats(dict(tim), unit)
+                p = _Fixed()
+                live = snap_json(p.get_stats())
+                err = None
+                try:
+                    p.dump_stats(path_of(st[1]))
+                except Exception as e:  # noqa
+                    err = repr(e)
+                pth = path_of(st[1])
+                steps.append(dict(op='dump', prof=-1, file=st[1], live=live, live_after=live, loaded=try_load(pth), err=err,
+                                  size=os.path.getsize(pth) if os.path.exists(pth) else -1))
             elif op in ('foreign', 'replace'):
                 tim = {(os.path.join(d, e['fname']), e['start'], e['func']): [tuple(r) for r in e['rows']] for e in st[2]}
                 ls = LineStats(tim, float(st[3]))
